@@ -31,7 +31,11 @@ type Ctx struct {
 	FnDepth  int // number of enclosing functions, counted through direct evals; 0 inside indirect eval code outside its own functions
 	With     int // enclosing with statements inside Fn/Root
 	Finally  int
-	Depth    int
+	Try      int // enclosing try blocks (with a catch clause) inside Fn/Root
+	// StrictEvalArgs: `arguments` here would be resolved from strict eval code to the calling function's object
+	// (a strict direct eval lies between this point and ThisFn)
+	StrictEvalArgs bool
+	Depth          int
 }
 
 type LabelInfo struct {
@@ -248,8 +252,11 @@ func (w *walker) fn(f *Node, c Ctx) {
 		in.ThisFn = f
 	}
 	in.Strict = c.Strict || f.Has(FStrict) || c.InClass
-	in.Loops, in.Breakers, in.Labels, in.With, in.Finally = 0, 0, nil, 0, 0
+	in.Loops, in.Breakers, in.Labels, in.With, in.Finally, in.Try = 0, 0, nil, 0, 0, 0
 	in.InClass = false
+	if !f.Has(FArrow) {
+		in.StrictEvalArgs = false
+	}
 	in.Depth++
 	in.FnDepth++
 	pc := in
@@ -277,8 +284,11 @@ func (w *walker) eval(n *Node, c Ctx) {
 	in := c
 	in.Root = n
 	in.Fn = nil
-	in.Loops, in.Breakers, in.Labels, in.With, in.Finally = 0, 0, nil, 0, 0
+	in.Loops, in.Breakers, in.Labels, in.With, in.Finally, in.Try = 0, 0, nil, 0, 0, 0
 	in.InParams = false
+	if !n.Has(FIndirect) && (c.Strict || n.Has(FStrict)) {
+		in.StrictEvalArgs = true
+	}
 	if n.Has(FIndirect) {
 		in.Strict = n.Has(FStrict)
 		in.ThisFn = nil
@@ -374,7 +384,11 @@ func (w *walker) stmt(n *Node, c Ctx) {
 	case KRet, KThrow:
 		w.expr(&n.A, RValue, c)
 	case KTry:
-		w.stmt(n.A, c)
+		tc := c
+		if n.C != nil {
+			tc.Try++
+		}
+		w.stmt(n.A, tc)
 		if n.C != nil {
 			if n.B != nil {
 				w.pattern(n.B, c)
